@@ -45,6 +45,8 @@ func vp_C15_send_join() {
 	if via != "" {
 		content = vpJObj("membership", membership, "join_authorised_via_users_server", via)
 	}
+	// the event type: a "join" must be an m.room.member event, whatever its content says
+	typ := vpChoice("type", spec.MRoomMember, spec.MRoomTopic, "m.room.message")
 	goodSig := vpNondetBool("good_signature")
 	key := ed25519.PrivateKey(privY)
 	if !goodSig {
@@ -55,7 +57,7 @@ func vp_C15_send_join() {
 		prev = []string{"$0123456789012345678901234567890123456789abc"}
 		auth = []string{"$0123456789012345678901234567890123456789abd"}
 	}
-	eb := verImpl.NewEventBuilderFromProtoEvent(&ProtoEvent{SenderID: user, RoomID: room, Type: spec.MRoomMember, StateKey: &sk, PrevEvents: prev, AuthEvents: auth, Depth: 5, Content: content})
+	eb := verImpl.NewEventBuilderFromProtoEvent(&ProtoEvent{SenderID: user, RoomID: room, Type: typ, StateKey: &sk, PrevEvents: prev, AuthEvents: auth, Depth: 5, Content: content})
 	ev, err := eb.Build(time.Unix(1700000000, 0), "y", "ed25519:1", key)
 	vpAssume(err == nil)
 
@@ -84,7 +86,7 @@ func vp_C15_send_join() {
 		Verifier: verifier, MembershipQuerier: &vpMembershipQuerier{existing}, UserIDQuerier: vpUserIDForSender,
 		StoreSenderIDFromPublicID: vpNoStore,
 	})
-	want := membership == spec.Join && skSame && reqRoomOK && reqIDOK && origin == "y" && goodSig && existing != spec.Ban && via != "@r:remote"
+	want := typ == spec.MRoomMember && membership == spec.Join && skSame && reqRoomOK && reqIDOK && origin == "y" && goodSig && existing != spec.Ban && via != "@r:remote"
 	vpAssert("admission", (herr == nil) == want)
 	if herr == nil {
 		vpAssert("already-joined-flag", res.AlreadyJoined == (existing == spec.Join))
